@@ -413,10 +413,64 @@ def check_delay_lists(chk, pols, binary, tag):
     return True
 
 
+TIE_IMPORTS = ["Base.Str", "Model.Clocks", "Model.UnitTimers", "Proofs.DelayProps", "Model.DelayWait",
+               "Proofs.DelayTie", "gen.GenPauseTable"]
+TIE_PRELUDE = """
+Definition enc_w (w : wstate) : list N :=
+  match w with
+  | Waiting r p => [0; r; if p then 1 else 0]
+  | Done Expired => [1] | Done CutShort => [2] | WPanicked => [3]
+  end.
+Definition both (es : list devent) : list (list N) :=
+  [enc_w (wabs_out (drun pause_table (dinit 2) es)); enc_w (wrun 2 (map wev es))].
+"""
+
+
+def delay_tie_counterexample():
+    """the certificate dcert2 failed for the regenerated pause table: look for a shortest request
+    sequence on which the retry-delay loop with the generated Stop / Continue arms and the
+    DelayWait machine (about which C07_not_sooner etc. are proved) disagree"""
+    import itertools
+    ok, out = vlib.coq_make(["gen/GenPauseTable.vo", "Proofs/DelayTie.vo"])
+    if not ok:
+        return None
+    evs = {"Stop": "DReq RStop", "Continue": "DReq RContinue", "1 ns passes": "DTick 1", "sleep fires": "DFire"}
+    seqs = [list(x) for n in range(1, 5) for x in itertools.product(evs, repeat=n)]
+    vals = vlib.coq_eval("c07tie", TIE_IMPORTS, [f"both {coq_list([evs[e] for e in sq])}" for sq in seqs],
+                         TIE_PRELUDE)
+    show = lambda w: {0: f"waiting, {w[1] if len(w) > 1 else '?'} ns left, {'stopped' if len(w) > 2 and w[2] else 'running'}",
+                      1: "expired", 2: "cut short", 3: "panicked"}[w[0]]
+    for sq, (gen_w, hand_w) in zip(seqs, vals):
+        if gen_w != hand_w:
+            return dict(request_sequence=sq, delay_ns=2, loop_with_generated_arms=show(gen_w), wait_machine=show(hand_w))
+    return None
+
+
 def run(tier, seed):
     chk = vlib.Check(PROP, tier, seed)
+    # the Stop / Continue arms of handle_delay_between_attempts are regenerated from executor.rs
+    # (C12's translator); Proofs/DelayTieCert.v re-establishes dcert2 for them
+    import units_e2e
+    tbl_ok, tbl_msg = units_e2e.regen_table()
+    if not tbl_ok:
+        chk.violation("broken-obligation", "pause-table-translator", dict(error=tbl_msg), no_input=True)
     gate = vlib.coq_gate(PROP)
-    vlib.gate_or_violation(chk, gate)
+    if not gate["ok"] and tbl_ok:
+        cex = None
+        try:
+            cex = delay_tie_counterexample()
+        except Exception as ex:
+            vlib.log("C07: search for a delay-loop counterexample failed: " + str(ex)[-500:])
+        if cex:
+            chk.violation("counterexample", "cert:delay-loop",
+                          dict(clause="on this request sequence the wait between attempts, with the Stop / Continue "
+                                      "arms read from executor.rs, does not behave as the pausable wait about which "
+                                      "'not sooner than the delay' is proved", input=cex,
+                               delay_arms=[l for l in tbl_msg.splitlines() if "t_delay" in l], problems=gate["problems"]))
+        else:
+            vlib.gate_or_violation(chk, gate)
+    else:
+        vlib.gate_or_violation(chk, gate)
     binary, err = vlib.build_harness()
     if binary is None:
         chk.violation("broken-obligation", "harness-build", dict(error=err), no_input=True)
@@ -609,6 +663,9 @@ def run(tier, seed):
         "could give, >= 1.5 s configured) - 0.5 s",
         "deserialize_retry_policy is exercised through toml::from_str on `retries = ...` (hook H3), "
         "not through the config crate's layered loader",
+        "the Stop / Continue arms of the wait between attempts are read from executor.rs by "
+        "harness/src/bin/pause_table.rs on every run (an arm it cannot translate is an error); the expiry, "
+        "cancellation and query arms of the wait machine are hand-written",
     ]
     # end-to-end stage: generated multi-test runs of the real cargo-nextest over the scripted puppet
     # workspace, judged by this property's oracle (lib/e2e_general.py)
